@@ -58,6 +58,10 @@ def run(ctx):
                         ev.append(call_event(b, r, d, nist, msg(rnd, LL, (k % 3 == 0) * 2, k % 3), LL if (LL or k % 2) else None)); ctx.mark((b, r, LL, nist, d))
         # a bit length beyond the data must be refused
         ev.append(call_event(b, b // 2, 8, False, b'\x01\x02', 17))
+    from crysp.keccak import Keccak as _K
+    for b, r, d in ((200, 64, 32), (400, 128, 64), (1600, 1088, 256)):
+        for m in core.zero_edge_inputs(lambda x: _K(b=b, r=r, len=d)(x), lambda i: b'zk-%d-%d' % (ctx.seed, i), want=1, tries=400 if b < 1600 else 120):
+            ev.append(call_event(b, r, d, True, m, None)); ctx.mark((b, r, 'zero-edge'))
     # module singletons and SHA-3 / SHAKE
     from crysp import keccak, sha
     def generic(op, fn, **kw):
